@@ -20,7 +20,8 @@ repairs D4 / D9 of the replication core as far as they touch these functions):
  D21: a node whose enabled version (restored from a dump) exceeds its own code version applies nothing;
  D22: with a user serializer the enabled version is stored next to the internal dump data and restored;
  D9: an exception from `_idToMethod[funcID](...)` - here: `KeyError` for an unknown id - is logged and becomes the
-     result of the command; the entry counts as applied and the batch goes on.
+     result of the command; the entry counts as applied and the batch goes on;
+ D61: loading a dump answers the callbacks of the commands it covers with `(None, LEADER_CHANGED)`.
 
 Names are lists of Unicode code points (`List Nat`) ordered like Python `str`; versions are `Nat`
 (`ver=` is passed through `int()`; negative versions are outside the property and outside the model).
@@ -187,6 +188,9 @@ inductive Ev where
   | unknownId (idx id : Nat)
   /-- gate D21: enabled version not supported by this code -/
   | blocked (enabled self : Nat)
+  /-- subscriber callback `(None, FAIL_REASON.LEADER_CHANGED)`: the command's index is covered by a loaded dump,
+  its outcome is not known to this node (repair D61 of `__loadDumpFile`) -/
+  | callbackOpen (cb : Nat)
 deriving DecidableEq, Repr, Inhabited
 
 def initNode (cls : ClassDef) : Node :=
@@ -310,13 +314,26 @@ def skipsInstall (n : Node) (d : Dump) (clearJournal : Bool) : Bool :=
      | e :: _ => e.term == d.last.term
      | [] => false))
 
-/-- `__loadDumpFile(clearJournal)` (repaired: name table for the restored version). -/
+/-- The entries of `__commandsWaitingCommit` a dump with last index `la` covers, in the order
+`sorted(idx for idx in waiting if idx <= la)` (repair D61). -/
+def coveredWaiting (w : List (Nat × List (Nat × Nat))) (la : Nat) : List (Nat × List (Nat × Nat)) :=
+  (w.filter (fun p => decide (p.1 ≤ la))).mergeSort (fun a b => decide (a.1 ≤ b.1))
+
+/-- `__loadDumpFile(clearJournal)` (repaired: name table for the restored version; subscribers of covered
+indices are taken off the waiting list). -/
 def loadDump (n : Node) (d : Dump) (clearJournal : Bool) : Node :=
   if skipsInstall n d clearJournal then n else
   let enabled := d.enabled.getD n.enabled
   let keep := !clearJournal && n.log.length ≥ 2 && n.log[0]? == some d.prev && n.log[1]? == some d.last
   { n with enabled := enabled, tableVer := enabled, lastApplied := d.last.idx,
-           log := if keep then n.log else [d.prev, d.last] }
+           log := if keep then n.log else [d.prev, d.last],
+           waiting := n.waiting.filter (fun p => !decide (p.1 ≤ d.last.idx)) }
+
+/-- What `__loadDumpFile` makes observable: `callback(None, LEADER_CHANGED)` for every subscriber of a covered index,
+by ascending index, then in registration order. The early return (`skipsInstall`) happens before and resolves nothing. -/
+def loadDumpEvents (n : Node) (d : Dump) (clearJournal : Bool) : List Ev :=
+  if skipsInstall n d clearJournal then [] else
+  (coveredWaiting n.waiting d.last.idx).flatMap (fun p => p.2.map (fun s => Ev.callbackOpen s.2))
 
 /-- Second phase of `__tryLogCompaction` (the serializer reported SUCCESS for dump `d`):
 `__deleteEntriesTo(serializeID)` with `serializeID = d.prev.idx` (`syncobj.py:1337-1340`, `:1125-1130`). -/
